@@ -189,7 +189,8 @@ def c15_r3(ctx):
                        detail="valid for Or, wrong for And: not conditioned on the operator", loc=ctx.nodeloc(nz, a))
     # dropping NullQuery clauses
     for st in ast.walk(nz.node):
-        if isinstance(st, ast.Assign) and isinstance(st.value, ast.ListComp) and "NullQuery" in norm.canon(st.value):
+        if isinstance(st, ast.Assign) and "NullQuery" in norm.canon(st.value) and (
+                isinstance(st.value, ast.ListComp) or any(norm.call_name(c) == "filter" for c in norm.calls_in(st.value))):
             node = [n for n in fa.g.nodes if n.ast is st]
             ctx.ob(nz, bool(node) and discriminated(node[0]), "NullQuery clauses are filtered out of the clause list",
                    detail="valid for Or, wrong for And (And([NullQuery, t]) matches nothing): not conditioned on the operator",
